@@ -1,16 +1,34 @@
 From Coq Require Import List String ZArith NArith Bool.
-From WTF Require Import Model.Validate Model.Text Model.Cli Check.Render.
+From WTF Require Import Model.Validate Model.Text Model.History Model.Cli Model.SearchCommand Check.Render.
 Import ListNotations.
 Open Scope string_scope.
 
 Definition item := (bytes * bytes)%type.     (* command, description *)
+
+Definition expected_items_of (limit : Z) (engine recovery : list item) : list item := cli_results item limit engine recovery.
 
 Record search17 := {
   s_format : string; s_no_color : bool; s_accepted : bool; s_limit_ok : bool; s_limit : Z;
   s_engine : list item; s_recovery : list item;
   s_printed : list item; s_exact : bool;       (* exact: texts comparable byte for byte (json, or list without line breaks) *)
   s_json_ok : bool; s_stdout : bytes; s_exit : Z; s_panic : bool;
-  s_hist_before : Z; s_hist_after : Z; s_hist_last : bytes; s_hist_last_n : Z; s_clean : bytes }.
+  s_hist_before : Z; s_hist_after : Z; s_hist_last : bytes; s_hist_last_n : Z; s_clean : bytes;
+  s_query : bytes; s_limit_arg : Z; s_default : Z }.   (* the query and the limit as given on the command line; ValidateLimit(0) *)
+
+(* the whole command on the model (Model/SearchCommand.v), the engine's and the recovery search's answers as observed *)
+Definition command_mismatch (s : search17) : option string :=
+  let o := search_command item (fun _ _ => s_engine s) (fun _ _ => s_recovery s) (s_default s) (s_query s) (s_limit_arg s)
+                          0%Z 0%Z [] (hnew 100) in
+  if negb (Bool.eqb (ro_rejected o) (negb (s_accepted s && s_limit_ok s))) then Some "command/validation"
+  else if ro_rejected o then None
+  else if negb (bytes_eqb (ro_query o) (s_clean s)) then Some "command/validated_query"
+  else if negb (Nat.eqb (List.length (ro_printed o)) (List.length (expected_items_of (s_limit s) (s_engine s) (s_recovery s)))) then Some "command/answer"
+  else match ro_hist o with
+       | Some h => match last_opt (entries h) with
+                   | Some e => if bytes_eqb (h_query e) (s_hist_last s) && Z.eqb (h_results e) (s_hist_last_n s) then None
+                               else Some "command/history_entry"
+                   | None => Some "command/history_entry" end
+       | None => Some "command/history_entry" end.
 
 Inductive case17 :=
 | KTree (t : list clicmd)
@@ -46,7 +64,8 @@ Definition check_case (c : case17) : report :=
   | KSub args ex p =>
       {| r_verdict := if p || Z.eqb ex 2 || (ex <? 0)%Z then VPredFail "subcommand_crash" else VOk; r_trivial := false; r_tags := ["sub"] |}
   | KSearch s =>
-      {| r_verdict := match check_search s with Some cl => VPredFail cl | None => VOk end;
+      {| r_verdict := match check_search s with Some cl => VPredFail cl | None =>
+                        match command_mismatch s with Some w => VMismatch w | None => VOk end end;
          r_trivial := match s_printed s with [] => true | _ => false end;
          r_tags := ["search"; s_format s] ++ (match s_engine s with [] => (match s_recovery s with [] => ["none"] | _ => ["recovery"] end) | _ => ["engine"] end) |}
   end.
